@@ -1,1 +1,159 @@
-//! (to be filled)
+//! Discriminants family: EnumDiscriminants. Checker for C09.
+
+use crate::*;
+use serde_json::json;
+use vmodel::model;
+
+pub trait DGlue: Glue {
+    /// index (by a harness-written exhaustive match) of `D::from(&e)`
+    fn d_of_ref(&self) -> usize;
+    fn d_of_val(self) -> usize;
+    /// IntoDiscriminant::discriminant, when the impl is expected to exist
+    fn d_of_trait(&self) -> Option<usize> {
+        None
+    }
+    /// `D::<variant j> as R`
+    fn d_int(j: usize) -> i128;
+    /// e's own discriminant (cast for field-less enums, pointer read for primitive-repr enums)
+    fn e_int(&self) -> Option<i128> {
+        None
+    }
+    /// size_of::<D>() and size_of::<R>() when a repr is given
+    fn d_sizes() -> Option<(usize, usize)> {
+        None
+    }
+    /// D::iter() as indices
+    fn d_iter() -> Option<Vec<usize>> {
+        None
+    }
+    fn d_from_str(_s: &str) -> Option<Option<usize>> {
+        None
+    }
+    fn d_display(_j: usize) -> Option<String> {
+        None
+    }
+    fn d_names() -> Option<Vec<String>> {
+        None
+    }
+    fn d_from_repr(_d: i128) -> Option<Option<usize>> {
+        None
+    }
+}
+
+pub fn c09<E: DGlue>(ctx: &mut Ctx) {
+    let spec = ctx.spec;
+    let n = spec.variants.len();
+    let ds = model::discs(spec);
+    let opts = spec.disc_opts.clone().unwrap_or_default();
+    let draws = ctx.param("draws", 8);
+    let interesting = spec.variants.iter().any(|v| v.kind != vmodel::spec::Kind::Unit)
+        && (spec.variants.iter().any(|v| v.disc.is_some()) || spec.has_generics() || !opts.passthrough.is_empty() || spec.variants.iter().any(|v| !v.disc_passthrough.is_empty()));
+    // expected names on D (pass-through strum attributes only; E's own #[strum] must not leak)
+    let pt_style: Option<String> = opts.passthrough.iter().find_map(|p| {
+        p.strip_prefix("strum(serialize_all = \"").and_then(|r| r.strip_suffix("\")")).map(|s| s.to_string())
+    });
+    let d_name = |j: usize| -> String {
+        let v = &spec.variants[j];
+        for p in &v.disc_passthrough {
+            if let Some(r) = p.strip_prefix("strum(serialize = \"").and_then(|r| r.strip_suffix("\")")) {
+                return r.to_string();
+            }
+        }
+        model::case(&v.ident, pt_style.as_deref())
+    };
+    for i in 0..n {
+        for k in 0..draws {
+            let dv: Vec<u64> = (0..6).map(|j| vmodel::derive_seed(ctx.seed, "disc", i as u64 * 1000 + k, j)).collect();
+            let mk = || E::make(i, &mut Draw::new(dv.clone()));
+            let e = mk();
+            let input = json!({"variant": i, "ident": spec.variants[i].ident, "payload": e.fields()});
+            ctx.evals(3);
+            if interesting {
+                ctx.nontrivial(format!("{}/{}/{}", spec.name, i, k).as_bytes());
+            }
+            let a = e.d_of_ref();
+            let b = mk().d_of_val();
+            if a != i {
+                ctx.fail("disc:from-ref", input.clone(), format!("discriminant variant #{}", i), format!("#{}", a));
+            }
+            if b != i {
+                ctx.fail("disc:from-value", input.clone(), format!("discriminant variant #{}", i), format!("#{}", b));
+            }
+            if let Some(t) = e.d_of_trait() {
+                if t != i {
+                    ctx.fail("disc:into-discriminant", input.clone(), format!("discriminant variant #{}", i), format!("#{}", t));
+                }
+            }
+            if let Some(x) = e.e_int() {
+                ctx.eval();
+                if x != ds[i] {
+                    panic!("model discriminant {} != rustc {} for variant #{} of {}", ds[i], x, i, spec.name);
+                }
+                if E::d_int(a) != x {
+                    ctx.fail("disc:integer-differs-from-enum", input.clone(), format!("{}", x), format!("{}", E::d_int(a)));
+                }
+            }
+        }
+        ctx.eval();
+        if E::d_int(i) != ds[i] {
+            ctx.fail("disc:integer-value", json!({"variant": i, "ident": spec.variants[i].ident}), format!("{}", ds[i]), format!("{}", E::d_int(i)));
+        }
+    }
+    if let Some((sd, sr)) = E::d_sizes() {
+        ctx.eval();
+        if sd != sr {
+            ctx.fail("disc:repr-size", json!({"repr": spec.repr}), format!("size_of::<D>() == {}", sr), format!("{}", sd));
+        }
+    }
+    // requested derives take effect on D
+    if let Some(it) = E::d_iter() {
+        ctx.eval();
+        ctx.class("derive:EnumIter");
+        let want: Vec<usize> = (0..n).collect();
+        if it != want {
+            ctx.fail("disc:derive-EnumIter", json!({"derive": "EnumIter"}), format!("{:?}", want), format!("{:?}", it));
+        }
+    }
+    if let Some(names) = E::d_names() {
+        ctx.eval();
+        ctx.class("derive:VariantNames");
+        let want: Vec<String> = (0..n).map(|j| d_name(j)).collect();
+        if names != want {
+            ctx.fail("disc:derive-VariantNames", json!({"derive": "VariantNames", "passthrough": opts.passthrough}), format!("{:?}", want), format!("{:?}", names));
+        }
+    }
+    for j in 0..n {
+        if let Some(s) = E::d_display(j) {
+            ctx.eval();
+            ctx.class("derive:Display");
+            if s != d_name(j) {
+                ctx.fail("disc:derive-Display", json!({"derive": "Display", "variant": j}), format!("{:?}", d_name(j)), format!("{:?}", s));
+            }
+        }
+        if let Some(r) = E::d_from_str(&d_name(j)) {
+            ctx.eval();
+            ctx.class("derive:EnumString");
+            if r != Some(j) {
+                ctx.fail("disc:derive-EnumString", json!({"derive": "EnumString", "variant": j, "input": d_name(j)}), format!("Some({})", j), format!("{:?}", r));
+            }
+            // spellings that only exist on E (its own #[strum(serialize)]) must not leak to D
+            for s in spec.variants[j].serialize() {
+                if (0..n).all(|x| d_name(x) != s) {
+                    ctx.eval();
+                    if let Some(Some(x)) = E::d_from_str(s) {
+                        ctx.fail("disc:strum-attribute-leaked", json!({"derive": "EnumString", "input": s}), "None".into(), format!("Some({})", x));
+                    }
+                }
+            }
+        }
+        if let Some(r) = E::d_from_repr(ds[j]) {
+            ctx.eval();
+            ctx.class("derive:FromRepr");
+            if r != Some(j) {
+                ctx.fail("disc:derive-FromRepr", json!({"derive": "FromRepr", "d": ds[j].to_string()}), format!("Some({})", j), format!("{:?}", r));
+            }
+        }
+    }
+    ctx.class(&format!("vis={}", opts.vis.clone().unwrap_or_else(|| "(not given)".into())));
+    ctx.sample(json!({"enum": spec.name, "repr": spec.repr, "discriminants_options": opts, "variants": spec.variants.iter().map(|v| format!("{}{:?}{}", v.ident, v.fields.iter().map(|f| f.ty).collect::<Vec<_>>(), v.disc.as_ref().map(|d| format!(" = {}", d.text)).unwrap_or_default())).collect::<Vec<_>>()}));
+}
